@@ -106,6 +106,8 @@ def require_trigger_value(spec):
     names = [k for i, k in enumerate(OPTN) if rt[1 + i] == "1"]
     if spec.get("rt_str") and len(names) == 1:
         return names[0]
+    if spec.get("rt_tuple"):
+        return tuple(names)
     return names
 
 
@@ -183,7 +185,10 @@ class Path:
     def _metadata(self):
         if self.bad:
             raise Injected("injected: ray path metadata")
-        return {"tof": ray_tof(self.c, self.k, self.i), "path_length": 2.5 + self.k,
+        t = ray_tof(self.c, self.k, self.i)
+        return {"tof": t, "path_length": 2.5 + self.k,
+                "emitted_x": t + 0.25, "emitted_y": t + 0.5, "emitted_z": t + 0.75,
+                "received_x": -t - 0.25, "received_y": -t - 0.5, "received_z": -t - 0.75,
                 "kind": ray_kind(self.c, self.k, self.i)}
 
 
@@ -215,6 +220,44 @@ class StubAnt:
         if self._trig_raise:
             raise Injected("injected: antenna trigger")
         return wave.trigval
+
+
+class StubSystem:
+    """an AntennaSystem-like wrapper: the writer reaches the noise master through `.antenna` (any depth)"""
+
+    def __init__(self, inner):
+        self.antenna = inner
+
+    @property
+    def _metadata(self):
+        return self.antenna._metadata
+
+    @property
+    def all_waveforms(self):
+        return self.antenna.all_waveforms
+
+    @all_waveforms.setter
+    def all_waveforms(self, v):
+        self.antenna.all_waveforms = v
+
+    def trigger(self, wave):
+        return self.antenna.trigger(wave)
+
+
+def innermost(ant):
+    while hasattr(ant, "antenna"):
+        ant = ant.antenna
+    return ant
+
+
+def make_detector(spec):
+    ants = []
+    for i in range(spec["nant"]):
+        a = StubAnt(i)
+        for _ in range((spec.get("nest") or [0] * spec["nant"])[i]):
+            a = StubSystem(a)
+        ants.append(a)
+    return ants
 
 
 def ray_tof(c, k, i):
@@ -340,6 +383,7 @@ def build_call(spec, c, op, ants):
     ri, _ = first_with(rays)
     # antennas
     for i, a in enumerate(ants):
+        a = innermost(a)
         a._nm_raise = False
         a._trig_raise = False
         ws = []
@@ -356,9 +400,9 @@ def build_call(spec, c, op, ants):
         else:
             a._nm = None
     if fault == "antTrigRaises":
-        ants[wi]._trig_raise = True
+        innermost(ants[wi])._trig_raise = True
     if fault == "noiseRaises":
-        ants[-1]._nm_raise = True
+        innermost(ants[-1])._nm_raise = True
     # event
     ps = make_particles(c, op["np"], spec.get("fid", 0))
     if fault == "evLenRaises":
@@ -483,12 +527,13 @@ class Built:
         return out
 
 
-def write_file(spec, fn):
+def write_file(spec, fn, on_reopen=None):
+    """on_reopen(b): called while the file is closed between two writer sessions"""
     from pyrex.io import File
     if os.path.exists(fn):
         os.remove(fn)
     kw = writer_kwargs(spec)
-    ants = [StubAnt(i) for i in range(spec["nant"])]
+    ants = make_detector(spec)
     b = Built(spec, fn)
     w = File(fn, "w", **kw)
     w.open()
@@ -498,7 +543,9 @@ def write_file(spec, fn):
         for op in spec["ops"]:
             if op["op"] == "R":
                 w.close()
-                w = File(fn, "a", **kw)
+                if on_reopen is not None:
+                    on_reopen(b)
+                w = File(fn, op.get("mode", "a"), **kw)
                 w.open()
                 w.set_detector(ants)
                 b.acc += "r"
@@ -547,8 +594,104 @@ def _guard(fn, table):
         return None, ("EXC", table, _tail(e))
 
 
+FORMS = False      # set by props/C11.py: also exercise the argument forms of the accessors on every event
+
+
+def _same(a, b):
+    import numpy as np
+    try:
+        a, b = np.asarray(a), np.asarray(b)
+        if a.shape != b.shape:
+            return False
+        if a.dtype == object or b.dtype == object:
+            return all(_same(x, y) for x, y in zip(a.ravel().tolist(), b.ravel().tolist())) if a.ndim else bool(a == b)
+        return bool(np.array_equal(a, b))
+    except Exception:      # noqa: BLE001
+        return False
+
+
+def accessor_forms(ev, out, mckeys):
+    """every argument form of the event accessors against the argument-free form -> problem or None"""
+    import numpy as np
+
+    def attempt(fn):
+        try:
+            return fn(), None
+        except Exception as e:      # noqa: BLE001
+            return None, _tail(e)
+    # particles
+    if out["particles"] and isinstance(out["particles"][0], tuple) and out["particles"][0][:1] != ("EXC",):
+        info = ev.get_particle_info()
+        for attr in PKEYS + ["particle_name"]:
+            got, err = attempt(lambda: ev.get_particle_info(attr))
+            if err or list(got) != [d[attr] for d in info]:
+                return ("particles", "get_particle_info(%r) = %r differs from the dicts (%s)" % (attr, got, err))
+        for name, cols in (("vertex", ["vertex_x", "vertex_y", "vertex_z"]), ("position", ["vertex_x", "vertex_y", "vertex_z"]),
+                           ("direction", ["direction_x", "direction_y", "direction_z"])):
+            got, err = attempt(lambda: ev.get_particle_info(name))
+            want = [[d[c] for c in cols] for d in info]
+            if err or not _same(got, want):
+                return ("particles", "get_particle_info(%r) = %r, want %r (%s)" % (name, got, want, err))
+        ii, err = attempt(lambda: ev.get_particle_info("interaction_info"))
+        if err or any(list(v) != [d[k] for d in info] for k, v in ii.items()) or \
+                sorted(ii) != sorted(k for k in info[0] if "interaction" in k):
+            return ("particles", "interaction_info %r inconsistent with the dicts (%s)" % (ii, err))
+        name, pid = info[0]["particle_name"], info[0]["particle_id"]
+        isnu = "neutrino" in name
+        want = (isnu, name.split("_")[0] if isnu else "", (pid < 0) if isnu else None)
+        got, err = attempt(lambda: (bool(ev.is_neutrino), ev.flavor, None if ev.is_nubar is None else bool(ev.is_nubar)))
+        if err or got != want:
+            return ("particles", "(is_neutrino, flavor, is_nubar) = %r, first particle says %r (%s)" % (got, want, err))
+    # rays
+    if out["rays"] and len(out["rays"][0]) == 2:
+        for name, pre in (("polarization", "polarization"), ("emitted_direction", "emitted"), ("received_direction", "received")):
+            got, err = attempt(lambda: ev.get_rays_info(name))
+            want, err2 = attempt(lambda: np.stack([ev.get_rays_info(pre + "_" + ax) for ax in "xyz"], axis=-1))
+            if err or err2 or not _same(got, want):
+                return ("rays", "get_rays_info(%r) differs from its three columns (%s %s)" % (name, err, err2))
+        dicts, err = attempt(lambda: ev.get_rays_info())
+        tof = ev.get_rays_info("tof")
+        if err or not _same([[d.get("tof", 0.0) for d in row] for row in dicts], tof):
+            return ("rays", "get_rays_info() dicts differ from get_rays_info('tof') (%s)" % err)
+    # waveforms
+    if out["waveforms"] and not (isinstance(out["waveforms"][0], tuple) and out["waveforms"][0][:1] == ("EXC",)):
+        full = ev.get_waveforms()
+        nrow, nant = full.shape[0], full.shape[1]
+        for i in range(nant):
+            got, err = attempt(lambda: ev.get_waveforms(antenna_id=i))
+            if err or not _same(got, full[:, i]):
+                return ("waveforms", "get_waveforms(antenna_id=%d) differs from column %d (%s)" % (i, i, err))
+        for k, spelling in [(k, k) for k in range(nrow + 1)] + [(0, "direct"), (1, "reflected"), (0, "Direct")]:
+            got, err = attempt(lambda: ev.get_waveforms(waveform_type=spelling))
+            want = full[k] if k < nrow else np.array([])
+            if err or not _same(got, want):
+                return ("waveforms", "get_waveforms(waveform_type=%r) differs from row %d of %d (%s)" % (spelling, k, nrow, err))
+            if k < nrow:
+                got, err = attempt(lambda: ev.get_waveforms(antenna_id=nant - 1, waveform_type=spelling))
+                if err or not _same(got, full[k, nant - 1]):
+                    return ("waveforms", "get_waveforms(%d, %r) differs from the full array (%s)" % (nant - 1, spelling, err))
+    # component triggers per ray
+    if out["mc_triggers"] and all(isinstance(r, tuple) and r[:1] != ("EXC",) for r in out["mc_triggers"]):
+        rows = out["mc_triggers"]
+        for j, spelling in [(j, j) for j in range(len(rows) + 1)] + [(0, "direct"), (1, "reflected")]:
+            got, err = attempt(lambda: ev.get_triggered_components(ray=spelling))
+            want = sorted(rows[j]) if j < len(rows) else []
+            if err or sorted(got) != want:
+                return ("mc_triggers", "get_triggered_components(ray=%r) = %r, row %d holds %r (%s)" % (spelling, got, j, want, err))
+    return None
+
+
 def canon_event(ev, mckeys):
     """materialise the current event of an EventIterator into canonical per-table row lists"""
+    out = _canon_event(ev, mckeys)
+    if FORMS:
+        bad = accessor_forms(ev, out, mckeys)
+        if bad:
+            out[bad[0]] = [("EXC", bad[0], bad[1])]
+    return out
+
+
+def _canon_event(ev, mckeys):
     out = {}
     # particles
     info, err = _guard(lambda: ev.get_particle_info(), "particles")
@@ -614,9 +757,12 @@ def canon_event(ev, mckeys):
     elif wf is None or len(wf) == 0:
         out["waveforms"] = []
     else:
-        out["waveforms"] = [tuple(tuple(tuple(float(x) for x in a[j]) for j in range(2)) for a in row)
-                            for row in wf]
+        out["waveforms"] = canon_waveform_rows(wf)
     return out
+
+
+def canon_waveform_rows(wf):
+    return [tuple(tuple(tuple(float(x) for x in a[j]) for j in range(2)) for a in row) for row in wf]
 
 
 def errname(e):
@@ -838,6 +984,9 @@ def gen_spec(rng, always=True, w=None, max_adds=10, nfaults=None, p_reopen=0.3, 
     nant = rng.randint(1, 3)
     spec = {"w": w, "rt": rt, "rt_str": rt_str, "nant": nant,
             "noisy": [int(rng.random() < 0.6) for _ in range(nant)], "ops": []}
+    # container form of require_trigger and antennas wrapped in 0-2 levels of antenna systems
+    spec["rt_tuple"] = bool(rt.startswith("L") and not rt_str and rng.random() < 0.4)
+    spec["nest"] = [rng.choice([0, 0, 0, 1, 2]) for _ in range(nant)]
     if nfaults is None:
         nfaults = rng.choice([0, 1, 1, 1, 2, 2, 3])
     if n_ok is None:
@@ -856,7 +1005,7 @@ def gen_spec(rng, always=True, w=None, max_adds=10, nfaults=None, p_reopen=0.3, 
         ops.insert(pos, fo)
     if rng.random() < p_reopen:
         for _ in range(rng.randint(1, 2)):
-            ops.insert(rng.randint(0, len(ops)), {"op": "R"})
+            ops.insert(rng.randint(0, len(ops)), {"op": "R", "mode": rng.choice(["a", "a", "r+"])})
     spec["ops"] = ops
     return spec
 
@@ -872,7 +1021,7 @@ def with_reopens(rng, spec, nsessions):
     s = strip_reopens(spec)
     ops = list(s["ops"])
     for _ in range(nsessions - 1):
-        ops.insert(rng.randint(0, len(ops)), {"op": "R"})
+        ops.insert(rng.randint(0, len(ops)), {"op": "R", "mode": rng.choice(["a", "r+"])})
     s["ops"] = ops
     return s
 
